@@ -566,11 +566,13 @@ def part_from_matchfile(
         # on_off_scale = 1 means duration and beat offset are given in
         # whole notes, else they're given in beats (as in the KAIST data)
         if not match_offset_duration_in_whole:
-            on_off_scale = beat_type_map(bar_start)
+            on_off_scale = beat_type_map_from_beats(note.OnsetInBeats)
 
         # offset within bar in quarter units adjusted for different
         # time signatures -> 4 / beat_type_map(bar_start)
-        bar_offset = (note.Beat - 1) * 4 / beat_type_map(bar_start)
+        bar_offset = (
+            (note.Beat - 1) * 4 / beat_type_map_from_beats(note.OnsetInBeats)
+        )
 
         # offset within beat in quarter units adjusted for different
         # time signatures -> 4 / beat_type_map(bar_start)
